@@ -14,7 +14,7 @@ META = {
     "status ok / error with and without extended status. Helpers get_plc_name, get_plc_info, get_module_info(slot 0..16), "
     "get_plc_time, set_plc_time over 64-bit boundary values. Histories (E2): every sequence of 2 (thorough 3) operations out of 13 "
     "(4 generic_message transports, get_module_info 0/3/16, plc name/info, get/set time, close+open) on drivers with 0-, 1- and 3-hop routes; "
-    "what the target is asked by the last operation, the Forward Opens/connection routes and the result must equal those of the same operation alone. Oracle: (transport, service, path, data, route) logged by the "
+    "refusals 1..255 x extended-status forms x {no data type, DINT, STRING, Struct} x reply with/without trailing bytes; what the target is asked by the last operation, the Forward Opens/connection routes and the result must equal those of the same operation alone. Oracle: (transport, service, path, data, route) logged by the "
     "target == requested; returned value == reply bytes / reference decode; refused -> falsy Tag with the status text. "
     "distinct = distinct argument tuple.",
     "explanation": "bounded-exhaustive enumeration, one generic_message call per case on a connected driver",
@@ -298,6 +298,16 @@ def run_shard(shard, tier, seed):
                         kw = dict(service=svc, class_code=0x99, instance=1, attribute=1, **tkw(tr))
                         want = (tr, svc, path_of(0x99, 1, 1), b"", droute if tr == "ucsend" else None)
                         expect(rep, t, dev, d, kw, want, reply=(st, ext, b"\xde\xad"), sig=f"refused/{tr}" + ("/status6" if st == 6 else ""), rp=("status", svc, st, tuple(ext), tr))
+        # the same refusals when the caller supplied a data type for the (absent) answer: the status text must survive
+        from pycomm3.cip import DINT
+        for dt, dname in ((DINT, "DINT"), (STRING, "STRING"), (Struct(UINT("a"), USINT("b")), "Struct")):
+            for st in range(1, 256):
+                for ext in ([], [0x2105], [0x0000], [1, 2]):
+                    for data in (b"", b"\xde\xad\xbe\xef\x01"):
+                        for tr in TRANSPORTS:
+                            kw = dict(service=0x0E, class_code=0x99, instance=1, attribute=1, data_type=dt, **tkw(tr))
+                            want = (tr, 0x0E, path_of(0x99, 1, 1), b"", droute if tr == "ucsend" else None)
+                            expect(rep, t, dev, d, kw, want, reply=(st, ext, data), sig=f"refused-typed/{tr}" + ("/status6" if st == 6 else ""), rp=("status", dname, st, tuple(ext), len(data), tr))
         rep.sample({"statuses": "1..255", "extended": "0/1/2 words", "services": "0x0E 0x01 0x10 0x4B 0x32 0x5F 0x7E 0x4C"})
     elif k == "history":
         run_history(rep, HIST_PATHS[shard[1]], tier)
